@@ -18,7 +18,7 @@
 (*                                                                         *)
 (* OpenOk        = openPartReaders (one decision per shard)                *)
 (* Outcome       = the per-shard body of the stripe loop of newPartReader  *)
-(* Step          = one iteration of the stripe loop (end-of-data decision,  *)
+(* Loop          = one iteration of the stripe loop (end-of-data decision,  *)
 (*                 ReconstructData, healing frames, output)                 *)
 (* Read          = GetPart + io.ReadAll : result AND shard files afterwards *)
 (*                                                                         *)
